@@ -65,7 +65,8 @@ pub fn injectables(n: usize, stat_fixture: &str, auxv_trunc: &str) -> Vec<Inj> {
         allowed: vec!["thread_names".into()],
     });
     v.push(Inj { name: "failpoint ThreadName".into(), failpoints: 4, expect: vec![("ReadThreadNameFailed".into(), n)], allowed: vec!["thread_names".into()], ..Default::default() });
-    let thread_loss = ["threads", "thread_names", "memory", "exception"];
+    // losing a thread may only remove THAT thread's entries (list entry, name, stack region); see drop_lost_threads
+    let thread_loss = ["lost-threads"];
     for i in 0..n {
         for (en_name, errno) in [("EPERM", libc::EPERM), ("ESRCH", libc::ESRCH)] {
             v.push(Inj {
@@ -194,6 +195,43 @@ fn combine(a: &Inj, b: &Inj) -> Option<Inj> {
     let mut allowed = a.allowed.clone();
     allowed.extend(b.allowed.clone());
     Some(Inj { name: format!("{} + {}", a.name, b.name), plan: a.plan.iter().chain(b.plan.iter()).cloned().collect(), failpoints: a.failpoints | b.failpoints, opt: a.opt.max(b.opt), expect, allowed })
+}
+
+/// The baseline with the entries of the threads that the faulted dump lost removed: their thread-list
+/// entry, their name entry and their stack's memory region; the exception record only when the thread
+/// it names is among the lost ones.  Everything else must then compare equal.
+fn drop_lost_threads(baseline: &Value, cur: &Value, max_lost: usize) -> Result<Value, String> {
+    let tids = |v: &Value| -> Vec<u64> { v.get("threads").and_then(|t| t.as_array()).map(|a| a.iter().filter_map(|t| t.get("tid").and_then(|x| x.as_u64())).collect()).unwrap_or_default() };
+    let (bt, ct) = (tids(baseline), tids(cur));
+    if let Some(extra) = ct.iter().find(|t| !bt.contains(t)) {
+        return Err(format!("thread {extra} is listed although the baseline dump does not have it"));
+    }
+    let lost: Vec<u64> = bt.iter().copied().filter(|t| !ct.contains(t)).collect();
+    if lost.len() > max_lost {
+        return Err(format!("{} threads are missing ({lost:?}) but only {max_lost} attach failure(s) were injected", lost.len()));
+    }
+    let mut o = baseline.as_object().cloned().unwrap_or_default();
+    let lost_stacks: Vec<u64> = baseline.get("threads").and_then(|t| t.as_array()).map(|a| a.iter().filter(|t| lost.contains(&t.get("tid").and_then(|x| x.as_u64()).unwrap_or(0))).filter_map(|t| t.get("stack_start").and_then(|x| x.as_u64())).collect()).unwrap_or_default();
+    if let Some(Value::Array(a)) = o.get_mut("threads") {
+        a.retain(|t| !lost.contains(&t.get("tid").and_then(|x| x.as_u64()).unwrap_or(0)));
+    }
+    if let Some(Value::Array(a)) = o.get_mut("thread_names") {
+        a.retain(|t| !lost.contains(&t.get(0).and_then(|x| x.as_u64()).unwrap_or(0)));
+    }
+    if let Some(Value::Array(a)) = o.get_mut("memory") {
+        a.retain(|m| !lost_stacks.contains(&m.get("start").and_then(|x| x.as_u64()).unwrap_or(u64::MAX)));
+    }
+    let exc_tid = baseline.get("exception").and_then(|e| e.get("tid")).and_then(|x| x.as_u64());
+    if exc_tid.map(|t| lost.contains(&t)).unwrap_or(false) {
+        // the crash thread's instruction-pointer window (<= 256 bytes) goes with it
+        if let Some(Value::Array(a)) = o.get_mut("memory") {
+            a.retain(|m| m.get("bytes").and_then(|b| b.as_str()).and_then(|s| s.rsplit('/').next()).and_then(|n| n.parse::<u64>().ok()).map(|n| n > 256).unwrap_or(true));
+        }
+        o.remove("exception");
+        // (the caller removes it from the faulted dump's side as well)
+        o.insert("exception-dropped".into(), json!(true));
+    }
+    Ok(Value::Object(o))
 }
 
 fn strip(norm: &Value, allowed: &[String]) -> Value {
@@ -419,8 +457,23 @@ fn judge(inj: &Inj, result: &DumpResult, baseline: &Value, injected_keys_hit: bo
         break;
     }
     let norm = d.normalized(bytes, &NormOpts { mask_volatile: true });
-    let a = strip(&norm, &inj.allowed);
-    let b = strip(baseline, &inj.allowed);
+    let mut baseline_owned = baseline.clone();
+    if inj.allowed.iter().any(|a| a == "lost-threads") {
+        let max_lost = inj.plan.iter().filter(|(k, _)| k.starts_with("attach:")).count();
+        match drop_lost_threads(&baseline_owned, &norm, max_lost) {
+            Ok(b2) => baseline_owned = b2,
+            Err(m) => fails.push((key("thread-loss-not-confined"), format!("[{}] {m}", inj.name))),
+        }
+    }
+    let baseline = &baseline_owned;
+    let mut a = strip(&norm, &inj.allowed);
+    let mut b = strip(baseline, &inj.allowed);
+    if b.get("exception-dropped").is_some() {
+        if let (Some(ao), Some(bo)) = (a.as_object_mut(), b.as_object_mut()) {
+            ao.remove("exception");
+            bo.remove("exception-dropped");
+        }
+    }
     if a != b {
         let which = a.as_object().and_then(|ao| ao.iter().find(|(k, v)| b.get(k.as_str()) != Some(v)).map(|(k, _)| k.clone())).unwrap_or_default();
         let sa = a.get(&which).map(|v| v.to_string()).unwrap_or_default();
